@@ -43,4 +43,11 @@ def run(tier):
     cr.bounded_check(run_contract_enum, "arithmetic-feedback-box", c04.optimize_feedback, fargs,
                      f"{len(fargs)} cells: 0..2 readers x a reader of another memory x one-step / two-step f x gates present / absent "
                      "(contract evaluated on the real MemoryBuilder._optimize_to_arithmetic_feedback with real SignalGraph / IR / plan objects)")
+    sargs = c04.self_feedback_arg_sets()
+    cr.bounded_check(run_contract_enum, "self-feedback-wire-box", c04.self_feedback, sargs,
+                     f"{len(sargs)} plans of three placements, each flagged / flagged without signal / unflagged (contract evaluated on the real "
+                     "ConnectionPlanner._add_self_feedback_connections)")
+    cargs = c04.cleanup_arg_sets()
+    cr.bounded_check(run_contract_enum, "cleanup-unused-gates-box", c04.cleanup_gates, cargs,
+                     f"{len(cargs)} pairs of cells x (no gate / write gate / hold gate / both unused) (contract evaluated on the real MemoryBuilder.cleanup_unused_gates)")
     return cr.finish()
